@@ -413,20 +413,26 @@ def run(ctx):
     ps = F.consts.get('table::key::PARTIAL_SIZE', {}).get('i')
     pk = F.body('table::key::partial_key')
     ii = ctx.body('column::HashColumn::iter_index_internal')
+    ii_root = ii
+    if ii and not ii.call_sites('index::IndexTable::recover_key_prefix'):
+        # the walk of ONE index table may sit in a private helper that the function calls for each generation
+        walkers = [x for x in lib.family(F, ii.path) if x is not ii and x.call_sites('index::IndexTable::recover_key_prefix')]
+        if len(walkers) == 1:
+            ii = walkers[0]
     if ii:
         # the index walk that feeds migration visits every slot of every chunk
         nn = lib.empty_slot_skipped(ctx, '4w empty-slot-skipped-not-terminal', ii, 'the migration index walk skips an empty slot and goes on with the rest of the chunk (removals leave holes in front of live entries)')
         lps = lib.for_loops_over(ii)
         ctx.ob('4w0 index-walk-anchors', 'anchor', ii.path, 'the walk is a loop over chunks with a loop over the entries of each chunk', len(lps) >= 2 or nn >= 1, 'loops %d, empty tests %d' % (len(lps), nn))
     gt = ctx.body('column::HashColumn::get')
-    if ii and gt:
+    if ii_root and gt:
         def reads_queue(b):
             return any('.HashColumn.reindex' in lib.receiver_fields(x, t, 0) or '.Reindex.queue' in lib.receiver_fields(x, t, 0)
                        for x in lib.family(F, b.path) for _bi, t in x.calls() if t['a'])
         ctx.ob('4x0 lookup-searches-queued-tables', 'anchor', gt.path, 'HashColumn::get also searches the index tables in the reindex queue', reads_queue(gt), '')
-        ctx.ob('4x index-walk-covers-queued-tables', 'K9-agreement', ii.path,
+        ctx.ob('4x index-walk-covers-queued-tables', 'K9-agreement', ii_root.path,
                'the index walk that feeds migration visits the same tables a lookup searches: the current index and every index table still in the reindex queue (a cleanly closed database may have a growth in progress)',
-               reads_queue(ii), 'iter_index_internal reads tables.index only; HashColumn::get also walks Reindex.queue')
+               reads_queue(ii_root), 'iter_index_internal reads tables.index only; HashColumn::get also walks Reindex.queue')
     def range_from_consts(b):
         out = []
         for blk in b.blocks:
